@@ -248,3 +248,53 @@ class HexRecorder:
 def bin2hex_recorder(fin, fout, offset=0):
     HexRecorder.LOG.append(("bin2hex", fin, fout, offset))
     return 0
+
+
+# ------------------------------------------------------------------------------------------------ uuid5
+
+
+class UToken:
+    """uuid5(ns, name) as an uninterpreted, *congruent* function: equal argument trees give the same token
+    (decided by symbolic ==), different trees give distinct concrete 16-byte values (collision-freeness assumed)."""
+
+    def __init__(self, ns, name, idx):
+        self.ns, self.name, self.idx = ns, name, idx
+        self.bytes = b"\xA5UUID5-" + bytes([idx]) + b"\x5a" * 8
+        self.hex = self.bytes.hex()
+
+    def tree(self):
+        return ("u5", self.ns.tree() if isinstance(self.ns, UToken) else ("ns", str(self.ns)), self.name)
+
+    def __str__(self):
+        return "uuid-token-%d" % self.idx
+
+
+class UuidProxy:
+    """Stands in for the `uuid` module inside one repository module."""
+
+    LOG = []  # shared: tokens in creation order
+
+    def __init__(self, real):
+        self._real = real
+        self.NAMESPACE_DNS = real.NAMESPACE_DNS
+        self.NAMESPACE_URL = real.NAMESPACE_URL
+        self.NAMESPACE_OID = real.NAMESPACE_OID
+        self.NAMESPACE_X500 = real.NAMESPACE_X500
+        self.UUID = real.UUID
+
+    def uuid5(self, ns, name):
+        if not isinstance(name, str):
+            raise TypeError("uuid5 name must be str")
+        for t in UuidProxy.LOG:
+            same_ns = (t.ns is ns) if isinstance(ns, UToken) or isinstance(t.ns, UToken) else (t.ns == ns)
+            if same_ns and t.name == name:
+                return t
+        t = UToken(ns, name, len(UuidProxy.LOG))
+        UuidProxy.LOG.append(t)
+        return t
+
+    def uuid4(self):
+        return self._real.uuid4()
+
+    def __getattr__(self, k):
+        return getattr(self._real, k)
